@@ -324,7 +324,7 @@ func prune(n *node, o cmpOpts, inForeign bool) {
 			if cl == "xmlns" || cl == "foreign" {
 				continue
 			}
-			if isSVGElem(n, "svg") && n.prefix == "" && cl == "" {
+			if isSVGElem(n, "svg") && cl == "" {
 				v := collapse(a.val)
 				switch a.local {
 				case "xmlns":
@@ -357,7 +357,7 @@ func prune(n *node, o cmpOpts, inForeign bool) {
 					}
 				}
 			}
-			if isSVGElem(n, "style") && n.prefix == "" && cl == "" && a.local == "type" && collapse(a.val) == "text/css" {
+			if isSVGElem(n, "style") && cl == "" && a.local == "type" && collapse(a.val) == "text/css" {
 				continue
 			}
 		}
@@ -389,6 +389,7 @@ type ddiff struct {
 	pd      *pathDiff
 	pin     *pathInfo
 	pstr    string
+	pout    string
 }
 
 func sigKids(n *node) []*node {
@@ -467,7 +468,11 @@ func compareNodes(a, b *node, o cmpOpts, where string, inForeign, inText bool) *
 	for i := 0; i < n; i++ {
 		x, y := ka[i], kb[i]
 		if x.kind != y.kind || x.kind == 'e' && (x.local != y.local || nsKey(x) != nsKey(y)) || x.kind == 'p' && x.local != y.local {
-			return &ddiff{cat: "struct:child-differs", where: where, inNode: x, foreign: inForeign, detail: fmt.Sprintf("child %d of %s is %s in the input and %s in the output", i, where, descNode(x), descNode(y))}
+			cat := "struct:child-differs"
+			if x.kind == 'p' && y.kind != 'p' {
+				cat = "pi-dropped:" + x.local
+			}
+			return &ddiff{cat: cat, where: where, inNode: x, foreign: inForeign, detail: fmt.Sprintf("child %d of %s is %s in the input and %s in the output", i, where, descNode(x), descNode(y))}
 		}
 		switch x.kind {
 		case 't':
@@ -648,7 +653,7 @@ func compareAttrValue(el *node, a, b dattr, o cmpOpts) *ddiff {
 		}
 		pout, err := parsePath(b.val)
 		if err != nil {
-			return &ddiff{cat: "path:output-unparseable", pin: pin, pstr: a.val, detail: fmt.Sprintf("path data %q became %q: %v", clipS(a.val, 200), clipS(b.val, 200), err)}
+			return &ddiff{cat: "path:output-unparseable", pin: pin, pstr: a.val, pout: b.val, detail: fmt.Sprintf("path data %q became %q: %v", clipS(a.val, 200), clipS(b.val, 200), err)}
 		}
 		if pd := comparePaths(pin, pout); pd != nil {
 			return &ddiff{cat: "path:segment-differs", pd: pd, pin: pin, pstr: a.val, detail: fmt.Sprintf("path data %q became %q: %s", clipS(a.val, 200), clipS(b.val, 200), pd.detail)}
